@@ -114,6 +114,8 @@ PROPERTY_RULES: Dict[str, List[Scoped]] = {
         _r("SOLVER-STATELESS", P_SOLVE),
         _r("COST-MONOTONE"), _r("MEMO-KEY"), _r("READONLY-INPUT"),
         _r("SORT-KEY-ALIGNED"),
+        # a configuration and its mirror image are priced alike iff both are priced as the (orientation-free) model says
+        _r("EVENT-SIG"), _r("MODEL-TABLE"), _r("CONSERVED-SIDE"),
     ],
     "C10": [
         _r("BASE-EXT-SHARE"), _r("EVENT-SIG"), _r("COSTKEYS"), _r("SIBLING-PAIRING"), _r("READONLY-DECODE"),
@@ -217,6 +219,7 @@ PROPERTY_INFO: Dict[str, Dict] = {
             "decoders never emit a partial mapping and enumerate all retained tags (DECODE-*)",
             "bottom-up fill, one anchored leaf entry, one result entry ranked by cost() (TRAVERSAL, LEAF-ANCHOR, RESULT-SCOPE)",
             "the result is a function of the arguments at call time: no memo, no module or object state, input not written, constraint parameters forwarded (SOLVER-STATELESS, MEMO-KEY, READONLY-INPUT, ITERATOR-REUSE, RECURSE-FORWARD)",
+            "distance() counts edges, not branch lengths (DERIVED-QUERIES); no absent result is swallowed, no result-dependent exit skips ties (OPTIONAL-CHECKED, RESULT-UNCONDITIONAL)",
         ],
         "not_decided": [
             "that a recurrence with these properties is optimal (induction over trees)",
@@ -238,6 +241,7 @@ PROPERTY_INFO: Dict[str, Dict] = {
             "base variant = LCA species only, extended = all species, same engine, on every path - no cost-dependent shortcut (BASE-EXT-SHARE)",
             "precedence graph total on its vertices, edges first->second (GRAPH-KEYS); the sorters do not consume the graph (READONLY-GRAPH)",
             "no state survives a call, input not written, no cost used as a truth value (SOLVER-STATELESS, MEMO-KEY, READONLY-INPUT, ITERATOR-REUSE, COST-TRUTH)",
+            "no result-dependent exit from the loops over refinements / root orders except a strict bound (RESULT-UNCONDITIONAL); sentinels tested with `is None` (NONE-SENTINEL-TRUTH)",
         ],
         "not_decided": [
             "optimality; completeness of the search over masks and root orders",
@@ -257,6 +261,7 @@ PROPERTY_INFO: Dict[str, Dict] = {
             "ranges per kind, mirror closure, orientation, tag/row agreement, sibling pairings",
             "required-content sets computed bottom-up (TRAVERSAL)",
             "no state survives a call; a memo table keys on every varying parameter (SOLVER-STATELESS, MEMO-KEY, READONLY-INPUT, ITERATOR-REUSE, COST-TRUTH)",
+            "a single family is never added as a collection of characters (ELEMENT-UPDATE); no result-dependent exit except a strict bound (RESULT-UNCONDITIONAL)",
         ],
         "not_decided": [
             "optimality; that the two canonical labellings per node lose nothing",
@@ -276,6 +281,7 @@ PROPERTY_INFO: Dict[str, Dict] = {
             "no candidate family can produce an INVALID event by range (CLASS-DOMAIN); node_event total and equal to the documented table (EVENT-EXHAUSTIVE, EVENT-TABLE)",
             "ordered leaf syntenies are never re-sorted on the way through to_dict/from_dict (ORDER-PRESERVED)",
             "no stale table: nothing survives a call (SOLVER-STATELESS, MEMO-KEY)",
+            "refinements keep protected clades and get collision-free names (RECURSE-FORWARD, LABEL-GUARD); leaf syntenies parsed from the dictionary entry itself (FIELD-SOURCE); families stay whole strings (ELEMENT-UPDATE)",
         ],
         "not_decided": ["finiteness of the cost and family scoping as runtime facts"],
     },
@@ -293,6 +299,7 @@ PROPERTY_INFO: Dict[str, Dict] = {
             "what is decoded is what was priced (INFO-KEY, COMBINE-ORIENT, DECODE-CONTENT-FLOW, READONLY-DECODE, MEMO-KEY)",
             "entry semantics per policy (UPDATE-PAIRING, RETENTION-GUARDS, COMBINE-PRODUCT)",
             "distinct solutions are not merged by a name-based equality (EQ-BY-FIELDS); nothing survives a call (SOLVER-STATELESS)",
+            "every refinement / root order / species is enumerated whatever has been found so far, up to a strict bound (RESULT-UNCONDITIONAL); the extended variants offer every species on every path (BASE-EXT-SHARE)",
         ],
         "not_decided": [
             "equality of the returned set with the true optimal set",
@@ -314,6 +321,7 @@ PROPERTY_INFO: Dict[str, Dict] = {
             "every event member handled, INVALID -> inf, LEAF -> 0 (EVENT-EXHAUSTIVE)",
             "masks computed parents-first (TRAVERSAL); CLI prints cost() of what it writes, for the cost vector that was requested (CLI-COST-SOURCE, COST-PASSTHROUGH, COST-TRUTH, FIELD-COPY-COMPLETE)",
             "the evaluator keeps no state between calls (SOLVER-STATELESS)",
+            "distance() is the edge count the model speaks of (DERIVED-QUERIES)",
         ],
         "not_decided": [
             "values of distance(), the LCA oracle and subseq_segment_dist() (C17, C18)",
@@ -330,6 +338,7 @@ PROPERTY_INFO: Dict[str, Dict] = {
             "children computed before their parent (TRAVERSAL)",
             "the input's own mapping is not written, the LCA oracle shares nothing between instances (READONLY-INPUT, SOLVER-STATELESS)",
             "cost vectors read from a dictionary keep explicit zero costs (COST-TRUTH)",
+            "the evaluator that defines 'minimum cost' charges duplications and speciations as the model says, and classifies nodes as the model says (MODEL-TABLE rec part, EVENT-TABLE)",
         ],
         "not_decided": [
             "minimality among all reconciliations and uniqueness for positive loss cost (numerical for-all)",
@@ -347,6 +356,7 @@ PROPERTY_INFO: Dict[str, Dict] = {
             "each refinement labelled before use, generated names collision-checked in a loop (LABEL-PASS, LABEL-GUARD); single result entry spans all refinements",
             "enumerated trees never share sub-trees (FRESH-ATTACH); polytomies resolved bottom-up (TRAVERSAL)",
             "graft forwards its `ignore` set in every recursive call (RECURSE-FORWARD); the product of refinements is not built from an exhausted iterator (ITERATOR-REUSE)",
+            "refinements that tie are all enumerated (RESULT-UNCONDITIONAL); the root synteny entry survives the rebuild (FIELD-SOURCE); the enumerator keeps no cache keyed by a lossy Newick string (SOLVER-STATELESS)",
         ],
         "not_decided": ["the count (2k-3)!! and 'exactly once'", "that the optimum over refinements is attained"],
     },
@@ -360,6 +370,8 @@ PROPERTY_INFO: Dict[str, Dict] = {
             "every value is a homogeneous linear form in the unit costs: scaling all costs by k scales every value by k (COST-HOMOGENEOUS)",
             "every unit cost has a coefficient that cannot be negative: raising it never lowers a value (COST-MONOTONE)",
             "re-run / visiting-order independence: nothing shared is mutated, nothing survives a call (READONLY-DECODE, READONLY-INPUT, SOLVER-STATELESS, MEMO-KEY)",
+            "a configuration and its mirror image (children of an object node or of a species node exchanged) are priced alike: both orientations of every candidate equal the orientation-free model, and the evaluator picks the conserved child by the mapping, not by position (EVENT-SIG, MODEL-TABLE, CONSERVED-SIDE)",
+            "the canonical order of unordered syntenies is a total order on mixed digit/letter names (SORT-KEY-ALIGNED)",
         ],
         "not_decided": ["renaming and outgroup invariance, hash/iteration order of Python sets (runtime)"],
     },
@@ -384,6 +396,7 @@ PROPERTY_INFO: Dict[str, Dict] = {
             "cost keys unambiguous (ENUM-DISJOINT); mappings keyed by exact name both ways, no normalising index (MAPPING-KEYING)",
             "cost values stored verbatim both ways, explicit zero and float infinity included (COST-PASSTHROUGH, COST-TRUTH)",
             "only sets are re-ordered when written (ORDER-PRESERVED); no cached serialisation outlives a relabelling (SOLVER-STATELESS)",
+            "parsed mappings come from the dictionary entry alone, explicit entries win, the parsed trees are left as written (FIELD-SOURCE)",
         ],
         "not_decided": ["equality of the reloaded object (ete3's Newick parser/writer are outside the analysed source)"],
     },
@@ -399,6 +412,7 @@ PROPERTY_INFO: Dict[str, Dict] = {
             "one option per cost key, passed verbatim incl. 0, and kept when the input is rebuilt (COST-OPTIONS, COST-PASSTHROUGH, COST-TRUTH, FIELD-COPY-COMPLETE); printed cost source (CLI-COST-SOURCE)",
             "draw / reconcile pick the labelled class only when the keys it needs are present (DISPATCH-KEYS)",
             "one result entry over all refinements whatever the policy - a necessary condition of 'all contains any' (RESULT-SCOPE)",
+            "refinements are labelled inside the loop (LABEL-PASS in compute/), the sort key cannot raise on mixed names (SORT-KEY-ALIGNED), draw's layout sides and loss chains are consistent (LAYOUT-SIDES, LOSS-CHAIN)",
         ],
         "not_decided": ["distinctness of names at run time", "all superset of any as a set relation", "draw accepting every object beyond the key dispatch"],
     },
@@ -413,6 +427,7 @@ PROPERTY_INFO: Dict[str, Dict] = {
             "a drawing does not inherit layers from an earlier one (SOLVER-STATELESS)",
             "fork corners, leaf outlines, leaf and loss markers and path operators of the horizontal drawing are the transposed ones of the vertical drawing, as symbolic points (SIGMA-DRAW)",
             "branch.left / branch.right are the lineages below the first / second child species (speciation) resp. the conserved / transferred child (transfer), over every configuration of the relational model (LAYOUT-SIDES)",
+            "the trees are not rewired while being laid out (NO-TOPOLOGY-WRITE)",
         ],
         "not_decided": ["that each node is placed in the species it is mapped to (run-time filter)", "absolute marker coordinates"],
     },
@@ -424,6 +439,7 @@ PROPERTY_INFO: Dict[str, Dict] = {
             "horizontal = transposed vertical (SIGMA-INVARIANCE + SIGMA-CLOSURE)",
             "computing twice gives the same result: no state kept (SOLVER-STATELESS)",
             "every level of a multi-level loss references the node created just before, and the sides of a speciation branch are the lineages that live in the matching child species (LOSS-CHAIN, LAYOUT-SIDES) - necessary for 'every anchor referenced exists'",
+            "the input trees are not rewired by a layout computation (NO-TOPOLOGY-WRITE)",
         ],
         "not_decided": ["finiteness, non-overlap, containment, anchor existence in general"],
     },
@@ -439,6 +455,7 @@ PROPERTY_INFO: Dict[str, Dict] = {
             "label omitted only when equal to the parent's (LABEL-OMIT)",
             "colour = nearest coloured ancestor: parent read in pre-order or descendants painted in post-order, no scalar carried across siblings, never read from a virtual node (COLOR-INHERIT, PREORDER-STATE, COLOR-SOURCE)",
             "wrapped labels: words never split, width only narrowed, candidate accepted only with the greedy line count (WRAP-DISCIPLINE)",
+            "ordered syntenies are not re-sorted on the way to a label (ORDER-PRESERVED); no wrap / colour state survives a call (SOLVER-STATELESS, MEMO-KEY)",
         ],
         "not_decided": ["behaviour of textwrap itself", "that a label lists exactly the node's families"],
         "assumptions": ["names and family names contain no braces (the property's quantifier)"],
@@ -447,7 +464,10 @@ PROPERTY_INFO: Dict[str, Dict] = {
         "explanation": "Static analysis (ast): path enumeration of Entry.update, partial evaluation of its guards "
         "with the policies fixed, polarity of defaults, comparisons and explicit constructions, None-domination "
         "in EntryProxy, structure of Entry.combine, freshness of table cells.",
-        "decided": ["UPDATE-PAIRING, RETENTION-GUARDS, POLARITY (incl. every Entry(...) construction), PROXY-NONE, COMBINE-PRODUCT, TABLE-FRESH-CELLS"],
+        "decided": [
+            "UPDATE-PAIRING, RETENTION-GUARDS, POLARITY (incl. every Entry(...) construction), PROXY-NONE, COMBINE-PRODUCT, TABLE-FRESH-CELLS",
+            "an entry owns its tag set (ENTRY-OWNS-TAGS); proxies keep no resolved cell (SOLVER-STATELESS)",
+        ],
         "not_decided": ["that Python's comparison on infinity.Infinity is a total order (trusted)"],
     },
     "C17": {
@@ -462,6 +482,7 @@ PROPERTY_INFO: Dict[str, Dict] = {
             "first-occurrence index, range [min, max + 1), node re-visited after each child at level + 1, (level, node) components (EULER-INDEX)",
             "table level d = min of two adjacent half windows for every start with i + 2**d <= length; query windows start at `start` and end at `stop`; None iff start >= stop (RMQ-WINDOWS)",
             "no state shared between instances or calls (SOLVER-STATELESS)",
+            "the tour is the tour of the whole tree given to the constructor; query bounds are used as given (EULER-INDEX, RMQ-WINDOWS)",
         ],
         "not_decided": [
             "that these identities imply exactness (induction over depth / tour positions)",
@@ -477,6 +498,7 @@ PROPERTY_INFO: Dict[str, Dict] = {
             "bit i <-> element i in writer and both readers; complete mask = 2**len - 1 (BIT-ORDER)",
             "transition table, initial state, final correction and scan length of the run counter; -1 exactly on a foreign child bit or a longer child (SEGMENT-MACHINE)",
             "the -1 conditions do not depend on the end mode (SENTINEL, producer side)",
+            "no decode cache or other state between calls (SOLVER-STATELESS, MEMO-KEY); exhaustion of the child is tested with `is None`, not truthiness (NONE-SENTINEL-TRUTH)",
         ],
         "not_decided": [
             "that the machine's output equals the number of maximal runs (induction over the scan)",
@@ -487,14 +509,14 @@ PROPERTY_INFO: Dict[str, Dict] = {
         "explanation": "Static analysis (ast): pairing of in-degree decrements and restores around the recursive "
         "call, freshness of the per-iteration start set, edge counting and cycle rejection, evidence required "
         "for the 'no ordering' answer, read-only graph, totality of the precedence graph.",
-        "decided": ["RESTORE-PAIRING, FRESH-STARTS, INDEG-INIT, GRAPH-KEYS, READONLY-GRAPH, EMPTY-RESULT-GUARD"],
+        "decided": ["RESTORE-PAIRING, FRESH-STARTS, INDEG-INIT, GRAPH-KEYS, READONLY-GRAPH, EMPTY-RESULT-GUARD", "no result cache between calls (SOLVER-STATELESS, MEMO-KEY)"],
         "not_decided": ["completeness / uniqueness of the enumeration as such", "Kahn's loop"],
     },
     "C20": {
         "explanation": "Static analysis (ast): branch isolation of the two-block enumeration (deep copies) and of "
         "the tree enumeration (fresh attachments, interprocedural freshness summaries); pairing of links and "
         "block counter in unite; source of the leaf set of a supertree problem.",
-        "decided": ["COPY-BEFORE-MUTATE", "FRESH-ATTACH", "GROUPS-PAIRING", "LEAVES-SOURCE"],
+        "decided": ["COPY-BEFORE-MUTATE", "FRESH-ATTACH", "GROUPS-PAIRING", "LEAVES-SOURCE", "a missing subtree (None) is tested before it is attached (OPTIONAL-CHECKED)", "no state between calls (SOLVER-STATELESS, MEMO-KEY)"],
         "not_decided": ["every 'exactly the trees displaying every triple' clause", "union-find values"],
     },
 }
